@@ -91,6 +91,21 @@ def run_cases(st: Stats, part, cases, evaluate, nontrivial=None, outcome=None):
         st.evaluations += 1
         p["evaluations"] += 1
         try:
+            if case.get("markup") and case.get("steps_seq"):
+                # the same markup cleaned in several ways within one execution (state keyed on the markup alone
+                # would leak from one call to the next); every call is evaluated
+                text, cits = None, []
+                for steps in case["steps_seq"]:
+                    t_, c_ = extract(dict(case, steps=steps))
+                    for lab, det in evaluate(case, t_, c_):
+                        st.violation(case, f"{lab}: {det} [steps={steps}] :: {brief(case)}", label=f"{part}-{lab}")
+                    text, cits = t_, c_
+                st.traces += 1
+                nt = bool(cits)
+                if nt:
+                    st.nontrivial.add(key)
+                st.outcomes.add(h64([(type(c).__name__, c.span()) for c in cits]))
+                continue
             text, cits = extract(case)
         except Exception as e:  # noqa: BLE001
             res = getattr(evaluate, "on_exception", None)
@@ -126,6 +141,8 @@ def seq_cases(sh, alphabets, sep=""):
         if sh.get("markup"):
             c["markup"] = True
             c["steps"] = sh.get("steps") or MARKUP_STEPS
+            if sh.get("steps_seq"):
+                c["steps_seq"] = sh["steps_seq"]
         if sh.get("opts"):
             c["opts"] = sh["opts"]
         yield c
